@@ -742,7 +742,8 @@ impl Rasn {
                 let class_fields = if self.config.opaque_open_types {
                     TokenStream::new()
                 } else {
-                    seq.members.iter().fold(
+                    let mut unsupported = None;
+                    let class_fields = seq.members.iter().fold(
                     TokenStream::new(),
                     |mut acc, m| {
                         m.constraints.iter().chain(m.ty.constraints()).for_each(|c| {
@@ -759,7 +760,10 @@ impl Rasn {
                                 }
                                 let obj_set_name = match t.object_set.values.first() {
                                     Some(ObjectSetValue::Reference(s)) => self.to_rust_title_case(s),
-                                    _ => todo!()
+                                    _ => {
+                                        unsupported = Some(m.name.clone());
+                                        return;
+                                    }
                                 };
                                 let field_enum_name = format_ident!("{obj_set_name}_{field_name}");
                                 let input = if m.optionality == Optionality::Required {
@@ -778,7 +782,15 @@ impl Rasn {
                             };
                         });
                         acc
-                    })
+                    });
+                    if let Some(member) = unsupported {
+                        return Err(GeneratorError::new(
+                            Some(ToplevelDefinition::Type(tld)),
+                            &format!("Member {member}: open types constrained by an object set that is not given by reference are not supported without `opaque_open_types`"),
+                            GeneratorErrorType::NotYetInplemented,
+                        ));
+                    }
+                    class_fields
                 };
                 let formatted_members =
                     self.format_sequence_or_set_members(seq, &name.to_string())?;
